@@ -216,18 +216,48 @@ def parseTable (c : Json) : Except String Parsed := do
       | w => throw s!"wrap {w}")
     pure ⟨.sparse pre bases, ri, accs⟩
 
+def missJ : Res Bool → Json
+  | .ok b => v (Json.bool b)
+  | .error _ => obj [("e", ofNat 1)]
+
+/-- Phase 5: `headers` / `missing` (dense), `_inv` / `missing` (sparse) of the observed row seen through d = 0..3 extra `EncodeRows({})` views (`probeD` / `probeS`) -/
+def probeDJ (t : Res (List DRow)) (ri : Nat) : Json :=
+  match t with
+  | .ok rs => match rs[ri]? with
+    | some r => ofList (fun d => obj [("headers", obsJ (ofRes .hdr (probeD d r).headers)), ("missing", missJ (probeD d r).missing), ("len", ofNat (probeD d r).len)]) [0, 1, 2, 3]
+    | none => Json.null
+  | .error _ => Json.null
+
+def probeSJ (t : Res (List SRow)) (ri : Nat) : Json :=
+  match t with
+  | .ok rs => match rs[ri]? with
+    | some r => ofList (fun d => obj [("inv", ofList (fun (p : Key × Key) => Json.arr #[keyJ p.1, keyJ p.2]) (probeS d r).invOf), ("missing", missJ (probeS d r).missing)]) [0, 1, 2, 3]
+    | none => Json.null
+  | .error _ => Json.null
+
+/-- per access: is it an `==` on which the length-blind comparison `eqPadded` answers differently from the model's `==` (tags only) -/
+def padJ (t : Res (List DRow)) (ri : Nat) (accs : List (Option Acc)) : Json :=
+  match t with
+  | .ok rs => match rs[ri]? with
+    | some r => ofList (fun (a : Option Acc) => match a with
+        | some (.eq (.list o)) => (match r.iter with | .ok xs => Json.bool (eqPadded xs o != r.eqList o) | .error _ => Json.bool false)
+        | _ => Json.bool false) accs
+    | none => Json.null
+  | .error _ => Json.null
+
 /-- the answer for one table from what `session` produced for it -/
 def answerOf (stages : List Stage) (p : Parsed) (out : TableOut) : Json :=
   match p.table, out with
   | .dense pre bases, .dense t =>
     -- hypothesis of `first_row_irrelevant`: every row looks like the first one at every stage
     (answer t (eagerTableD (pre ++ stages) bases) p.ri p.accs obsD eagerObsD runD errD eagerErrD).setObjVal! "uniform" (Json.bool (uniformRun (pre ++ stages) (bases.map baseD)))
+      |>.setObjVal! "probe" (probeDJ t p.ri) |>.setObjVal! "pad" (padJ t p.ri p.accs)
   | .sparse pre bases, .sparse t =>
     -- hypotheses of the sparse theorems: no stage addresses a hidden raw key of a header-mapped base
     let safe := bases.all (fun b => leakSafe (!(baseS b).leak.isEmpty) (pre ++ stages))
     -- hypothesis of `first_row_irrelevant_sparse`: every dict looks like the first one at every stage
     ((answer t (eagerTableS (pre ++ stages) bases) p.ri p.accs obsS eagerObsS runS errS eagerErrS).setObjVal! "leak_safe" (Json.bool safe)).setObjVal!
-      "uniform" (Json.bool (uniformRunS (pre ++ stages) (bases.map baseS)))
+      "uniform" (Json.bool (uniformRunS (pre ++ stages) (bases.map baseS))) |>.setObjVal! "probe" (probeSJ t p.ri)
   | _, _ => obj [("model", obj [("pipe_err", ofNat 1)]), ("spec", Json.null), ("hyp", Json.bool false)]
 
 /-- request `{"case": table}` or `{"tables": [table…], "stages": […]}`: the tables go through `session`
